@@ -105,7 +105,7 @@ def gen_plan(rng, tier, index=0):
             steps.append({"op": r.choice(["hold", "check_hold"]), "s": s})
         else:
             k = r.weighted([("np_seed", 3), ("np_draw", 2), ("py_seed", 1), ("clock", 1), ("printopts", 2), ("gc", 0.5),
-                            ("np_default_rng", 1), ("other_screen", 2)])
+                            ("np_default_rng", 1), ("other_screen", 2), ("numba_threads", 1)])
             if k == "other_screen":
                 steps.append({"noise": {"k": "other_screen", "like": s, "rows": r.randint(0, 3)}})
             elif k == "printopts":
@@ -114,9 +114,12 @@ def gen_plan(rng, tier, index=0):
                 steps.append({"noise": {"k": k, "v": r.choice([0.001, 1.0, 3600.0, -5.0])}})
             elif k == "np_draw":
                 steps.append({"noise": {"k": k, "v": r.randint(1, 50)}})
+            elif k == "numba_threads":
+                steps.append({"noise": {"k": k, "v": r.randint(1, 4)}})
             else:
                 steps.append({"noise": {"k": k, "v": r.choice([0, 1, 42, r.randrange(2 ** 32)]), "n": r.randint(1, 8)}})
-    return {"mode": "history", "ambient": rng.randrange(2 ** 31), "entropy": rng.randrange(2 ** 62), "screens": scr, "steps": steps}
+    return {"mode": "history", "ambient": rng.randrange(2 ** 31), "entropy": rng.randrange(2 ** 62), "numba_threads": rng.randint(1, 4),
+            "screens": scr, "steps": steps}
 
 
 def sample_view(plan):
@@ -171,7 +174,7 @@ def execute(plan, keep_log=False):
     res = core.Result()
     log = core.EventLog(keep_log)
     screens.warm()
-    seams.reset_ambient(plan["ambient"])
+    seams.reset_ambient(plan["ambient"], plan.get("numba_threads", 1))
     specs = plan["screens"]
     n = len(specs)
     canon, names = [], {}
@@ -362,6 +365,7 @@ def execute(plan, keep_log=False):
     if nontrivial:
         res.sig("hist", tuple(canon))
     res.digest = log.digest()
+    res.sched_digest = log.full_digest()
     if keep_log:
         res.events = log.events
     return res
@@ -462,6 +466,7 @@ def execute_stationary(plan, keep_log=False):
         res.inconclusive.append("stationary stage: construction/stepping raised %s" % type(e).__name__)
         log.add("stationary", "raised", type(e).__name__)
         res.digest = log.digest()
+        res.sched_digest = log.full_digest()
         return res
     res.count("stationary.configs")
     if unscriptable:
@@ -469,12 +474,14 @@ def execute_stationary(plan, keep_log=False):
         res.count("stationary.inconclusive")
         log.add("stationary", "inconclusive")
         res.digest = log.digest()
+        res.sched_digest = log.full_digest()
         return res
     res.sim_time = float(T_used)
     if unstable:
         res.violate("stability", "C05:vk-recursion-not-stable", "%s (params %s)" % (unstable, p), -1)
         log.add("stationary", "unstable")
         res.digest = log.digest()
+        res.sched_digest = log.full_digest()
         return res
     res.count("stationary.impulse_responses", nx)
     if T_used > 10:
@@ -521,6 +528,7 @@ def execute_stationary(plan, keep_log=False):
     del flat
     log.add("stationary", tag, T_used)
     res.digest = log.digest()
+    res.sched_digest = log.full_digest()
     return res
 
 
